@@ -151,7 +151,7 @@ CLAIMED = {
             'the front end asks for the path form exactly when there is more than one mask. For the proof-sensitive algorithms (PS, PSW, PSS) additionally: the colour given to a '
             'shared variable, obtained by abstractly evaluating computePSFunction for every cut of a five-leaf proof and composing it with the label -> colour lambdas of '
             'setLeafPS/PSW/PSSLabeling, only moves from b towards a as the cut moves right - the condition under which a family of labelled interpolation systems has the '
-            'path-interpolation property.',
+            'path-interpolation property. The two partition numberings (position in Interpret::assertions, MainSolver::insertedFormulasCount) are both append-only.',
             'static analysis: path walk of one group-loop iteration (monotone accumulator, append count) + loop-range rules over the mini-AST + abstract evaluation of the PS labelling function over all cuts of a small proof', ''),
     'C14': ('other',
             'Static, the Boolean simplifying constructors only: Logic::mkNot, mkXor, mkImpl, mkIte, mkBinaryEq (Boolean arguments), mkAnd, mkOr touch their arguments only through '
